@@ -781,6 +781,16 @@ def _check(ctx):
         sched = [n for n, c in calls_with(g, "self.reactor.callLater") if any(src(a) == "self.connectionLost" for a in c.args)] + call_nodes(g, "self.connectionLost")
         ctx.check(len(sched) == 1, "abort/schedules-loss-once", q, f"abortConnection arranges connectionLost at {len(sched)} places (exactly one)")
         aset = self_assigns(g, "_aborting", lambda v: const_value_is(v, lambda x: x is True))
+        # abort always terminates: the only states in which abortConnection() may return without arranging connectionLost are "already lost" and "abort
+        # already pending" - in both connectionLost has been or will be delivered without the peer's help.  With those two excluded, EVERY path (both
+        # outcomes of whatever else is tested: an orderly close in progress, a half-close, a producer ...) must reach the scheduling.
+        live = {"self.disconnected": 0, "self._aborting": False}
+        w = must_pass_under(g, live, sched)
+        open_tests = [src(g.node(t).ast) for t in undecided_tests(g, live)]
+        ctx.check(bool(sched) and w is None, "abort/always-terminates", q + " | <not disconnected, no abort pending>",
+                  "abortConnection() can return without arranging connectionLost on a connection that is neither finished nor already aborting" +
+                  (f" (it also looks at {open_tests[0]}: e.g. an orderly close waiting for a stalled peer to drain the buffer is then never cut short - "
+                   "connectionLost is not delivered, the socket stays open)" if open_tests else ""), witness=g.describe(w))
         for n in sched:
             c = ctx.construct(q, g.node(n).ast)
             ctx.check(implied(g, n, [{"self._aborting": False}], [{"self._aborting": True}]), "abort/once-guard", c,
@@ -847,6 +857,10 @@ def _check(ctx):
 
 
 MUTANTS = [
+    Mutant("abort-skipped-while-an-orderly-close-waits-for-the-buffer", TCP, "        if self.disconnected or self._aborting:\n            return\n",
+           "        if self.disconnected or self._aborting:\n            return\n        if self.disconnecting and self.dataBuffer:\n            return\n", expect_rule="abort/always-terminates"),
+    Mutant("abort-only-for-connected-transports-with-nothing-half-closed", TCP, "        if self.disconnected or self._aborting:\n            return\n",
+           "        if self.disconnected or self._aborting or self._writeDisconnected:\n            return\n", expect_rule="abort/always-terminates"),
     Mutant("tcp-read-conditional-return-inverted", TCP, '            if se.args[0] == EWOULDBLOCK:\n                return\n            else:\n                return main.CONNECTION_LOST\n\n        return self._dataReceived(data)\n', '            return main.CONNECTION_LOST if se.args[0] == EWOULDBLOCK else None\n        else:\n            return self._dataReceived(data)\n', expect_rule="tcp-read/"),
     Mutant("polllike-helper-write-dispatched-after-failed-read", PB, "            # Any non-disconnect event turns into a doRead or a doWrite.\n            try:\n                # First check to see if the descriptor is still valid.  This\n                # gives fileno() a chance to raise an exception, too.\n                # Ideally, disconnection would always be indicated by the\n                # return value of doRead or doWrite (or an exception from\n                # one of those methods), but calling fileno here helps make\n                # buggy applications more transparent.\n                if selectable.fileno() == -1:\n                    # -1 is sort of a historical Python artifact.  Python\n                    # files and sockets used to change their file descriptor\n                    # to -1 when they closed.  For the time being, we'll\n                    # continue to support this anyway in case applications\n                    # replicated it, plus abstract.FileDescriptor.fileno\n                    # returns -1.  Eventually it'd be good to deprecate this\n                    # case.\n                    why = _NO_FILEDESC\n                else:\n                    if event & self._POLL_IN:\n                        # Handle a read event.\n                        why = selectable.doRead()\n                        inRead = True\n                    if not why and event & self._POLL_OUT:\n                        # Handle a write event, as long as doRead didn't\n                        # disconnect us.\n                        why = selectable.doWrite()\n                        inRead = False\n            except BaseException:\n                # Any exception from application code gets logged and will\n                # cause us to disconnect the selectable.\n                why = sys.exc_info()[1]\n                log.err()\n", '            why, inRead = self._runHandlers(selectable, event)\n',
            more=[(PB, "    def _doReadOrWrite(self, selectable, fd, event):\n", '    def _runHandlers(self, selectable, event):\n        why = None\n        inRead = False\n        try:\n            if selectable.fileno() == -1:\n                return _NO_FILEDESC, inRead\n            if event & self._POLL_IN:\n                why = selectable.doRead()\n                inRead = True\n            if event & self._POLL_OUT:\n                why = selectable.doWrite()\n                inRead = False\n        except BaseException:\n            why = sys.exc_info()[1]\n            log.err()\n        return why, inRead\n\n    def _doReadOrWrite(self, selectable, fd, event):\n')], expect_rule="dispatch/"),
